@@ -244,7 +244,7 @@ func runOne(m *minify.M, bin, workroot string, raw []byte) Record {
 		obs.Lib = append(obs.Lib, LibObs{Type: r.Type, Srcs: r.Srcs, Sep: append(lib.Bytes{}, r.Sep...),
 			In: append(lib.Bytes{}, in...), OK: ok, Out: append(lib.Bytes{}, o...)})
 	}
-	ctx, cancel := context.WithTimeout(context.Background(), 60*time.Second)
+	ctx, cancel := context.WithTimeout(context.Background(), 30*time.Second)
 	defer cancel()
 	cmd := exec.CommandContext(ctx, bin, sc.Argv...)
 	cmd.Dir = root
@@ -255,9 +255,10 @@ func runOne(m *minify.M, bin, workroot string, raw []byte) Record {
 	}
 	err := cmd.Run()
 	if ctx.Err() != nil {
-		lib.Fatal("scenario %d: command timed out: %v", sc.ID, sc.Argv)
-	}
-	if err != nil {
+		// a command that does not finish has not written its outputs: recorded (exit 255) and judged like any other run
+		obs.Exit = 255
+		se.WriteString("\nTIMEOUT: command killed after 30s")
+	} else if err != nil {
 		if ee, ok := err.(*exec.ExitError); ok {
 			obs.Exit = ee.ExitCode()
 			if obs.Exit < 0 {
